@@ -335,6 +335,20 @@ func evalC04(c *hc.Ctx, g *Grid, poly [][]Pt, kind string, ids []int, cfg snap.C
 				}
 			}
 		}
+		// holes stay holes of THEIR part: every vertex of a returned hole lies inside or on its shell
+		for _, pl := range r.ByID[id] {
+			if len(pl) < 2 || len(pl[0]) < 3 {
+				continue
+			}
+			for _, hole := range pl[1:] {
+				for _, v := range hole {
+					if pointInRing(pl[0], v) < 0 {
+						c.Violate(hc.Violation{What: fmt.Sprintf("a returned hole is attached to a shell that does not contain it (tile matrix %d)", id), Input: caseJSON(g, poly, ids, cfg, r), Observed: map[string]any{"shell": pl[0], "hole": hole}})
+						break
+					}
+				}
+			}
+		}
 		minx, miny, maxx, maxy := bbox(poly)
 		var bad []Pt
 		for s := 0; s < 48; s++ {
